@@ -580,6 +580,12 @@ func (h *c17H) doNew(line string, w []string) {
 			sig := "readback:other"
 			if req.Fill.Type == "gradient" && len(req.Fill.Color) == 2 && (req.Fill.Shading == 2 || req.Fill.Shading == 5 || req.Fill.Shading == 8 || req.Fill.Shading == 11) {
 				sig = "readback:gradient-3stop"
+			} else if _, cur := xl.VerifC17CurrencyNumFmt(req.NumFmt); cur && req.CustomNumFmt == nil && nxf == h.wb.nxf {
+				// an existing xf was returned for a currency request: did its numFmtId merely equal the requested id?
+				gs, _ := h.wb.f.GetStyle(id)
+				if gs != nil && gs.CustomNumFmt != nil && exp.CustomNumFmt != nil && *gs.CustomNumFmt != *exp.CustomNumFmt {
+					sig = "readback:currency-id-collision"
+				}
 			}
 			h.r.Fail(sig, fmt.Sprintf("GetStyle(NewStyle(s)) = %q, default-normalised s = %q", got, c17EncStyle(&exp)), ln, h.replay())
 		}
@@ -1092,6 +1098,10 @@ func (h *c17H) observe(rng *Rng, cs, rs []int) {
 }
 
 func (h *c17H) genCase(rng *Rng, nops int, gridHeavy bool) {
+	if gridHeavy && rng.Chance(12) {
+		h.genFlatCase(rng, nops)
+		return
+	}
 	h.exec("reset")
 	pal := c17GenPalette(rng)
 	var reqs []string
@@ -1161,6 +1171,36 @@ func (h *c17H) genCase(rng *Rng, nops int, gridHeavy bool) {
 	h.r.Case(key, h.wb.created >= 2 || gridHeavy)
 }
 
+// a worksheet that keeps exactly one row slot: SetColStyle's overwrite of existing cells at the
+// smallest non-empty size
+func (h *c17H) genFlatCase(rng *Rng, nops int) {
+	h.exec("reset")
+	for i := 0; i < 4; i++ {
+		h.exec("new " + c17EncStyle(&xl.Style{Font: &xl.Font{Bold: i&1 == 1, Italic: i&2 == 2, Size: float64(8 + i)}}))
+	}
+	h.r.Stat("case:flat")
+	for i := 0; i < nops; i++ {
+		c := rng.Range(1, 6)
+		switch rng.Intn(5) {
+		case 0:
+			h.exec(fmt.Sprintf("setcell %d 1 %d 1 %d", c, c+rng.Intn(2), h.pickSid(rng)))
+		case 1:
+			h.exec(fmt.Sprintf("setcol %d %d %d", c, c+rng.Intn(2), h.pickSid(rng)))
+		case 2:
+			h.exec(fmt.Sprintf("setrow 1 1 %d", h.pickSid(rng)))
+		case 3:
+			h.exec(fmt.Sprintf("write %d 1 %d", c, rng.Intn(6)))
+		default:
+			h.exec(fmt.Sprintf("getcol %d", c))
+		}
+		for k := 1; k <= 8; k++ {
+			h.exec(fmt.Sprintf("getcell %d 1", k))
+		}
+	}
+	h.exec("grid")
+	h.r.Case(strings.Join(h.wb.lines, "\n"), true)
+}
+
 // deterministic witnesses of the known findings and boundary definitions: part of every run
 func (h *c17H) witnesses() {
 	ip := func(i int) *int { return &i }
@@ -1190,6 +1230,7 @@ func (h *c17H) witnesses() {
 	run(&xl.Style{NumFmt: 2, NegRed: true}, &xl.Style{NumFmt: 63}, &xl.Style{Fill: xl.Fill{Type: "x", Pattern: 1}},
 		&xl.Style{Fill: xl.Fill{Type: "pattern", Pattern: 0}}, &xl.Style{Fill: xl.Fill{Type: "pattern", Pattern: 19, Color: []string{"112233"}}})
 	run(&xl.Style{Font: &xl.Font{Bold: true}, NumFmt: 165}, &xl.Style{NumFmt: 165})
+	run(&xl.Style{NumFmt: 165, DecimalPlaces: ip(3)}, &xl.Style{NumFmt: 164})
 	run(&xl.Style{}, &xl.Style{Font: &xl.Font{Bold: true}}, &xl.Style{Alignment: &xl.Alignment{}}, &xl.Style{Protection: &xl.Protection{}},
 		&xl.Style{CustomNumFmt: sp("0.000")}, &xl.Style{CustomNumFmt: sp("")}, &xl.Style{NumFmt: 165}, &xl.Style{NumFmt: 165, DecimalPlaces: ip(2)},
 		&xl.Style{Fill: xl.Fill{Type: "pattern", Pattern: 1, Color: []string{"#aabbcc"}}, Alignment: &xl.Alignment{}})
@@ -1221,6 +1262,18 @@ func (h *c17H) witnesses() {
 	}
 	h.exec("setrow 3 3 0")
 	h.exec("setcol 4 4 0")
+	h.r.Case(strings.Join(h.wb.lines, "\n"), true)
+	// one row slot only: an explicit cell style, then a column style over it
+	h.exec("reset")
+	h.exec("new " + c17EncStyle(&xl.Style{Font: &xl.Font{Bold: true}}))
+	h.exec("new " + c17EncStyle(&xl.Style{Font: &xl.Font{Italic: true}}))
+	h.exec("setcell 2 1 2 1 1")
+	h.exec("setcol 2 2 2")
+	h.exec("getcell 2 1")
+	h.exec("getcell 3 1")
+	h.exec("grid")
+	h.exec("setcol 2 3 0")
+	h.exec("getcell 2 1")
 	h.exec("setcell 1 1 12 12 99")
 	h.exec("setrow 1 2 -1")
 	h.exec("setcol 1 2 4")
